@@ -79,6 +79,21 @@ def all_points(c):
     return [None] + [(x, y) for x in range(p) for y in range(p) if ref_on(c, (x, y))]
 
 
+def congruent_keys(count=3):
+    """uncompressed SEC1 buffers 04||X||Y with X = x0 + p (x0 a small abscissa of a real curve point, X < 2^256) and the
+    matching Y: the curve equation holds MODULO p but the coordinate is out of range - SEC1 requires rejection.
+    Also Y = y0 + p variants where they fit."""
+    out = []
+    x0 = 0
+    while len(out) < count and x0 < 2 ** 32:
+        y2 = (x0 ** 3 + 7) % P
+        y = pow(y2, (P + 1) // 4, P)
+        if y * y % P == y2 and x0 + P < 2 ** 256:
+            out.append(b"\x04" + (x0 + P).to_bytes(32, "big") + y.to_bytes(32, "big"))
+        x0 += 1
+    return out
+
+
 def _pt(v):
     return None if v is None else (v[0], v[1])
 
